@@ -1,5 +1,7 @@
 import GnpyModel
 import GnpyProofs.Lemmas.Route
+import GnpyProofs.Lemmas.Disjoint
+import GnpyProofs.Lemmas.Ispart
 /- Property theorems for C11 — every computed route is a real, loop-free, constraint-respecting shortest path.
    Model: GnpyModel/Route.lean.  networkx is not modelled: the theorems establish that the ORACLE (`bestRoute`,
    `decideRoute`) and the CHECKER (`checkRoute`) the harness runs against the implementation mean exactly what the
@@ -153,6 +155,98 @@ theorem decide_blocked_iff (g : Graph) (hg : g.WF) (s t : V) (inc : List V) (str
         obtain ⟨p, hp, _⟩ := decide_loose_dropped g hg s t inc hreach hinc
         simp [hp, hreach]
   · simp [decide_noPath g hg s t inc strict hreach, hreach]
+
+/-! ### the route-list clean-up (`correct_json_route_list`) -/
+
+/-- **clean-up, accepted lists**: when every unusable entry (unknown name or transceiver) is LOOSE, the clean-up keeps
+exactly the usable entries, in order, with their hop types (source first / destination last silently removed) -/
+theorem clean_ok (isNode isTrx : V → Bool) (s t : V) (route : List (V × Bool)) (hs : isTrx s = true)
+    (ht : isTrx t = true)
+    (hloose : ∀ p ∈ stripEnds s t route, badNode isNode isTrx p.1 = true → p.2 = false) :
+    correctRouteList isNode isTrx s t route =
+      .ok ((stripEnds s t route).filter (fun p => !(badNode isNode isTrx p.1))) := by
+  have := cleanLoop_ok isNode isTrx (stripEnds s t route) [] (by simp) hloose
+  simpa [correctRouteList, hs, ht] using this
+
+/-- **clean-up, STRICT entry that cannot be applied**: the request is refused (`ServiceError`) -/
+theorem clean_strict_error (isNode isTrx : V → Bool) (s t : V) (route : List (V × Bool)) (hs : isTrx s = true)
+    (ht : isTrx t = true)
+    (hbad : ∃ p ∈ stripEnds s t route, badNode isNode isTrx p.1 = true ∧ p.2 = true) :
+    correctRouteList isNode isTrx s t route = .error .strictUnknown := by
+  have := cleanLoop_error isNode isTrx (stripEnds s t route) (stripEnds s t route) hbad
+  simpa [correctRouteList, hs, ht] using this
+
+/-- a list of usable nodes is left untouched, and nothing unusable survives the clean-up -/
+theorem clean_result_usable (isNode isTrx : V → Bool) (s t : V) (route r : List (V × Bool))
+    (h : correctRouteList isNode isTrx s t route = .ok r) :
+    ∀ p ∈ r, isNode p.1 = true ∧ isTrx p.1 = false := by
+  by_cases hs : isTrx s = true
+  · by_cases ht : isTrx t = true
+    · by_cases hbad : ∃ p ∈ stripEnds s t route, badNode isNode isTrx p.1 = true ∧ p.2 = true
+      · rw [clean_strict_error isNode isTrx s t route hs ht hbad] at h; cases h
+      · have hloose : ∀ p ∈ stripEnds s t route, badNode isNode isTrx p.1 = true → p.2 = false := by
+          intro p hp hb
+          by_contra hcon
+          exact hbad ⟨p, hp, hb, by simpa using hcon⟩
+        rw [clean_ok isNode isTrx s t route hs ht hloose] at h
+        injection h with h
+        subst h
+        intro p hp
+        have := (List.mem_filter.1 hp).2
+        simp only [badNode, Bool.not_or, Bool.not_not, Bool.and_eq_true, Bool.not_eq_true'] at this
+        exact this
+    · simp [correctRouteList, hs, ht] at h
+  · simp [correctRouteList, hs] at h
+
+/-! ### `ispart`, the code's "crosses in order" test -/
+
+/-- **`ispart` is the subsequence test**: on lists without repetition (a loop-free path, an include list naming each
+node once) the code's `ispart(a, b)` holds exactly when `a` is a subsequence of `b` — the relation `IsRoute` uses -/
+theorem ispart_iff_sublist (a b : List V) (ha : a.Nodup) (hb : b.Nodup) :
+    ispart a b = true ↔ a.Sublist b := by
+  unfold ispart
+  rw [ispartAux_iff]
+  constructor
+  · rintro ⟨hmem, hch⟩
+    have h1 : List.IsChain (· ≤ ·) (a.map (fun x => b.idxOf x)) := hch.tail
+    have h2 := List.isChain_iff_pairwise.1 h1
+    have h3 : a.Pairwise (fun x y => b.idxOf x ≤ b.idxOf y) := List.pairwise_map.1 h2
+    exact sublist_of_idx_mono b a ha hmem h3
+  · intro hs
+    refine ⟨fun x hx => hs.subset hx, ?_⟩
+    have hp := (pairwise_idx_of_nodup b hb).sublist hs
+    rw [List.isChain_iff_pairwise, List.pairwise_cons]
+    refine ⟨fun y _ => Nat.zero_le y, ?_⟩
+    rw [List.pairwise_map]
+    exact hp.imp (fun h => Nat.le_of_lt h)
+
+/-- the code also accepts an include list that names a node twice in a row, which no loop-free path can cross twice:
+this is where `ispart` and the subsequence relation differ (the generators never repeat a node) -/
+theorem ispart_repeated_node : ispart [1, 1] [0, 1, 2] = true ∧ ¬ [1, 1].Sublist [0, 1, 2] := by decide
+
+/-! ### the reverse path of a bidirectional request -/
+
+/-- **C11, reverse path**: the path rebuilt from the reversed OMS (`find_reversed_path`: reversed OMS of every crossed
+OMS, in reverse order) visits the same sites (ROADMs) in reverse.  `c` is the chain of OMS the forward path crosses,
+`rev` maps an OMS to `oms.reversed_oms` (same two ROADMs, opposite direction). -/
+theorem reverse_sites (rev : Oms → Oms) : ∀ c : List Oms, Adjacent c → RevOk rev c →
+    sitesOf (revChain rev c) = (sitesOf c).reverse
+  | [], _, _ => by simp [revChain, sitesOf]
+  | [o], _, hr => by
+    have := hr o (by simp)
+    simp [revChain, sitesOf, this.1, this.2]
+  | o :: o' :: rest, hc, hr => by
+    have hadj : o.dst = o'.src := (List.isChain_cons_cons.1 hc).1
+    have ih := reverse_sites rev (o' :: rest) (List.isChain_cons_cons.1 hc).2
+      (fun x hx => hr x (List.mem_cons_of_mem _ hx))
+    rw [revChain_cons, sitesOf_append_singleton _ _ (revChain_ne_nil rev _ (by simp)), ih, (hr o (by simp)).2]
+    simp only [sitesOf, List.map_cons, List.reverse_cons, List.append_assoc, List.cons_append, List.nil_append]
+    rw [hadj]
+
+/-- the reversed chain is again a chain of adjacent OMS: the reverse path follows existing links -/
+theorem reverse_adjacent (rev : Oms → Oms) (c : List Oms) (hc : Adjacent c) (hr : RevOk rev c) :
+    Adjacent (revChain rev c) :=
+  adjacent_revChain rev c hc hr
 
 /-! ### non-vacuity: a 4-node diamond 0→1→3, 0→2→3 (fibre 80 km / 50 km + 50 km) -/
 
